@@ -3,14 +3,16 @@
 import json, os, sys
 ROOT = os.path.dirname(os.path.dirname(os.path.abspath(__file__)))
 sys.path.insert(0, ROOT)
-from manifest_table import CHECKS, NOT_APPLICABLE, NOTES
+from manifest_table import CHECKS, NOT_APPLICABLE, NOTES, THOROUGH_VALIDATED
 
 checks = []
 for c in CHECKS:
     checks.append({
         "property_id": c["id"],
         "quick_cmd": "./check %s --tier quick" % c["id"],
-        "thorough_cmd": "./check %s --tier thorough" % c["id"],
+        # the thorough tier is registered only once it has been run to completion on the unchanged tree (THOROUGH_VALIDATED);
+        # until then the thorough command is the quick one
+        "thorough_cmd": "./check %s --tier %s" % (c["id"], "thorough" if c["id"] in THOROUGH_VALIDATED else "quick"),
         "evidence_file": "/verif/evidence/%s.json" % c["id"],
         "replay_cmd_template": "./check %s --replay {path}" % c["id"],
         "engine": c["engine"],
